@@ -134,6 +134,44 @@ Proof.
     try destruct (lookup id st); auto.
 Qed.
 
+(* The decision is taken for the type the unit is created with: a local submit that creates a
+   unit was let through by [authorize] on the very class [classify] gives the submitted name,
+   and the unit carries that class (a local "remote" unit records signwork = false). *)
+Theorem decision_for_created_type (r : registry) st c tok newid name signwork st' rp :
+  exec_submit_name jwt key_ok r st c tok newid name false signwork = (st', rp, [ECreated newid]) ->
+  authorize (classify r name signwork) c tok = Allow /\
+  st' = st ++ [(newid, mkunit (match classify r name signwork with WRemote _ => WRemote false | k => k end) false)].
+Proof.
+  unfold exec_submit_name. simpl.
+  destruct (lookup newid st); [discriminate|].
+  destruct (authorize (classify r name signwork) c tok) eqn:Ea; [|discriminate].
+  unfold submit_kind. destruct (classify r name signwork); intro H; inversion H; auto.
+Qed.
+
+(* hence: a unit of a verifying work type comes into being only over the unix socket or with a
+   token the oracle calls valid — whatever spelling was submitted *)
+Theorem verifying_unit_needs_token (r : registry) st c tok newid name signwork st' rp :
+  exec_submit_name jwt key_ok r st c tok newid name false signwork = (st', rp, [ECreated newid]) ->
+  reg_lookup name r = Some true -> name <> s_remote ->
+  c = Unix \/ (tok <> [] /\ key_ok = true /\ jwt tok = JValid).
+Proof.
+  intros He Hr Hn. apply decision_for_created_type in He as [Ha _].
+  unfold classify in Ha. destruct (beq_bytes name s_remote) eqn:E; [apply beq_bytes_eq in E; congruence|].
+  rewrite Hr in Ha. apply authorize_allow_iff in Ha. simpl in Ha.
+  destruct Ha as [[H _]|[_ H]]; [discriminate|exact H].
+Qed.
+
+(* a name that is not registered (any other spelling of a registered one included) creates nothing locally *)
+Theorem unknown_name_creates_nothing (r : registry) st c tok newid name signwork :
+  reg_lookup name r = None -> name <> s_remote ->
+  exists e, exec_submit_name jwt key_ok r st c tok newid name false signwork = (st, RError e, []).
+Proof.
+  intros Hr Hn. unfold exec_submit_name, classify.
+  destruct (beq_bytes name s_remote) eqn:E; [apply beq_bytes_eq in E; congruence|].
+  rewrite Hr. simpl. destruct (lookup newid st); [eauto|].
+  destruct (authorize WUnknown c tok); eauto.
+Qed.
+
 End SigProofs.
 
 (* ---------- non-vacuity: a concrete oracle and node ---------- *)
